@@ -263,7 +263,18 @@ class Component( ComponentLevel7 ):
     # Put back the explicit constraints that ancestors declared on objects
     # of the replaced component
     for (host, table, name, cons) in top._dsl.__dict__.pop( "_saved_constraints", [] ):
-      if table == "M_constraints":
+      if table == "U_U_constraints":
+        c = []
+        for b in name:
+          if isinstance( b, tuple ):
+            b = eval( b[0] )._dsl.name_upblk.get( b[1] )
+          c.append( b )
+        if None in c:
+          continue # the new component has no block of that name
+        c = tuple( c )
+        host._dsl.U_U_constraints.add( c )
+        top._dsl.all_U_U_constraints.add( c )
+      elif table == "M_constraints":
         x0, x1 = name
         c = ( eval(x0) if isinstance( x0, str ) else x0,
               eval(x1) if isinstance( x1, str ) else x1, cons )
@@ -430,6 +441,8 @@ class Component( ComponentLevel7 ):
       # signals / method ports of the deleted component are keyed by the
       # deleted objects: take them out and save them by name.
       saved_constraints = []
+      removed_blks = { blk: x for x in removed_components
+                       for blk in getattr( x._dsl, "upblks", () ) }
       for host in hosts:
         for table in ( "RD_U_constraints", "WR_U_constraints" ):
           host_table = getattr( host._dsl, table )
@@ -441,15 +454,30 @@ class Component( ComponentLevel7 ):
               del top_table[k]
             saved_constraints.append( (host, table, repr(k), cons) )
 
+        # method ports and method interfaces ( M( s.q.deq ) with a
+        # non-blocking deq )
         stale = { c for c in getattr( host._dsl, "M_constraints", () )
-                  if c[0] in removed_connectables or c[1] in removed_connectables }
+                  if c[0] in removed_callables or c[1] in removed_callables }
         if stale:
           host._dsl.M_constraints -= stale
           top._dsl.all_M_constraints -= stale
           for (x0, x1, is_equal) in stale:
             saved_constraints.append( (host, "M_constraints",
-              ( repr(x0) if x0 in removed_connectables else x0,
-                repr(x1) if x1 in removed_connectables else x1 ), is_equal) )
+              ( repr(x0) if x0 in removed_callables else x0,
+                repr(x1) if x1 in removed_callables else x1 ), is_equal) )
+
+        # ordering constraints on update blocks of the deleted components
+        # ( U(up) < U( s.c.get_update_block("up_child") ) ): saved as
+        # (component name, block name)
+        stale = { c for c in host._dsl.U_U_constraints
+                  if c[0] in removed_blks or c[1] in removed_blks }
+        if stale:
+          host._dsl.U_U_constraints -= stale
+          top._dsl.all_U_U_constraints -= stale
+          for (b0, b1) in stale:
+            saved_constraints.append( (host, "U_U_constraints",
+              tuple( ( repr(removed_blks[b]), b.__name__ ) if b in removed_blks else b
+                     for b in (b0, b1) ), None) )
 
       saved_connections = []
       saved_loopbacks   = set()
